@@ -16,11 +16,14 @@ static int admissible(int p, unsigned idx, unsigned mask) {
     return 1;                                            /* positions 0, 1 (coin xor reaches every index), 6..15 */
 }
 
-static void fb_one(polyseed_data *d, const rseed *sp, const uint8_t s0[32], int li, unsigned coin, struct res *r) {
+static void fb_one(polyseed_data *d, const rseed *sp, const uint8_t s0[32], int li, unsigned coin, int narrow, struct res *r) {
     rseed s = *sp;
     struct { polyseed_str out; uint8_t canary[32]; } b; memset(&b, 0x6B, sizeof b);
+    /* a seed in hand stays encodable whatever the enabled mask is now: half of the cases encode with every user feature disabled */
+    if (narrow) polyseed_enable_features(0);
     size_t n = polyseed_encode(d, polyseed_get_lang(li), (polyseed_coin)coin, b.out); r->calls++; r->cases++;
-    char rep[120], h[40]; hex(s.secret, 19, h); snprintf(rep, sizeof rep, "fb %s %u %u %d %u", h, s.birthday, s.features, li, coin);
+    if (narrow) polyseed_enable_features(7);
+    char rep[120], h[40]; hex(s.secret, 19, h); snprintf(rep, sizeof rep, "fb %s %u %u %d %u %d", h, s.birthday, s.features, li, coin, narrow);
     int bad = 0; for (int i = 0; i < 32; i++) if (b.canary[i] != 0x6B) bad |= 1;
     size_t real = strnlen(b.out, PSTR);
     if (real >= PSTR) bad |= 1;
@@ -44,7 +47,7 @@ int main(int argc, char **argv) {
     if (a < argc && !strcmp(argv[a], "case")) { replay_li = atoi(argv[a + 1]); replay_mask = atoi(argv[a + 2]); }
     if (a + 5 < argc && !strcmp(argv[a], "fb")) {      /* fb <secret> <birthday> <features> <language> <coin> */
         rseed s; parse_rseed(argv[a + 1], atoi(argv[a + 2]), atoi(argv[a + 3]), &s); polyseed_data *d = seed_from_ref(&s); if (!d) { printf("cannot load\n"); return 1; }
-        uint8_t s0[32]; polyseed_store(d, s0); fb_one(d, &s, s0, atoi(argv[a + 4]), (unsigned)atoi(argv[a + 5]), r);
+        uint8_t s0[32]; polyseed_store(d, s0); fb_one(d, &s, s0, atoi(argv[a + 4]), (unsigned)atoi(argv[a + 5]), a + 6 < argc ? atoi(argv[a + 6]) : 0, r);
         for (int i = 0; i < r->nviol; i++) printf("REPRODUCED %s: %s\n", r->v[i].key, r->v[i].msg); return r->nviol ? 1 : 0;
     }
     int NL = polyseed_get_num_langs();
@@ -145,7 +148,7 @@ int main(int argc, char **argv) {
             uint8_t s0[32]; polyseed_store(d, s0);
             for (int li = 0; li < R_NLANG; li++) for (unsigned ci = 0; ci < 7; ci++) {
                 unsigned coin = ci < 6 ? COINS[ci] : (unsigned)(prng(&ps) & 2047);
-                fb_one(d, &s, s0, li, coin, r);
+                fb_one(d, &s, s0, li, coin, (int)((x + li + ci) & 1), r);
             }
             polyseed_free(d);
         }
